@@ -61,6 +61,7 @@ def returns_fresh(prog):
                 rt = u.types[f.d["ret"]]
                 if rt.get("k") != "ptr":
                     continue
+                f = u.fn(f.name)         # with static helpers inlined: a wrapper around a publishing call publishes too
                 holders = _holders(f, fresh)
                 # a holder that is also published elsewhere is not owned by the caller
                 published = set()
